@@ -124,7 +124,7 @@ class FakeTransport(asyncio.Transport):
             self.protocol.connection_lost(exc)
 
 
-def tcp(sym, cov, mode, eager=False, T=1, N=4, busy=False, close_cancelled=False):
+def tcp(sym, cov, mode, eager=False, T=1, N=4, busy=False, close_cancelled=False, xj_fixed=None):
     """mode: 'recv' (peer sends N bytes in symbolic chunks, reader with symbolic delays and max_bytes)
              'send' (local sends, write gate closes/opens at symbolic instants)
              'close' (aclose() by another task at a symbolic instant while receiving / before sending)"""
@@ -160,7 +160,7 @@ def tcp(sym, cov, mode, eager=False, T=1, N=4, busy=False, close_cancelled=False
         n2 = sym.int("n2", 1, 3)
     if mode == "close":
         xt = sym.int("xt", 0, T + 2)
-        xj = sym.int("xj", 0, 1)
+        xj = sym.int("xj", 0, 1) if xj_fixed is None else xj_fixed  # cycle offset of the close (split over two units in the quick tier)
         xc = close_cancelled  # aclose() runs in an already cancelled scope (`async with stream:` unwinding)
 
     async def main():
@@ -385,7 +385,7 @@ class FakeSocket:
         return k
 
 
-def unix(sym, cov, mode, eager=False, T=1):
+def unix(sym, cov, mode, eager=False, T=1, cj_fixed=None):
     import anyio
     import anyio._backends._asyncio as B
     from anyio import BrokenResourceError, BusyResourceError, ClosedResourceError, EndOfStream
@@ -433,7 +433,7 @@ def unix(sym, cov, mode, eager=False, T=1):
         sd = sym.int("sd", 0, 4)
     if mode == "recv-cancel":
         ct = sym.int("ct", 0, T + 2)
-        cj = sym.int("cj", 0, 2)
+        cj = sym.int("cj", 0, 2) if cj_fixed is None else cj_fixed
 
     def fire_readable():
         ent = readers.get(id(sock))
@@ -582,11 +582,13 @@ def units(tier):
     us.append({"name": "tcp recv busy", "fn": tcp, "params": {"mode": "recv", "busy": True, "T": 0}, "budget_s": B_})
     us.append({"name": "tcp send", "fn": tcp, "params": {"mode": "send"}, "budget_s": B_})
     us.append({"name": "tcp send busy", "fn": tcp, "params": {"mode": "send", "busy": True, "T": 0}, "budget_s": B_})
-    us.append({"name": "tcp close", "fn": tcp, "params": {"mode": "close"}, "budget_s": B_})
+    for xj_ in (0, 1):
+        us.append({"name": "tcp close (cycle offset %d)" % xj_, "fn": tcp, "params": {"mode": "close", "xj_fixed": xj_}, "budget_s": B_})
     us.append({"name": "tcp close, aclose() interrupted by cancellation", "fn": tcp, "params": {"mode": "close", "close_cancelled": True}, "budget_s": B_})
     us.append({"name": "unix recv", "fn": unix, "params": {"mode": "recv"}, "budget_s": B_})
     us.append({"name": "unix send", "fn": unix, "params": {"mode": "send"}, "budget_s": B_})
-    us.append({"name": "unix recv, a receive attempt cancelled and retried", "fn": unix, "params": {"mode": "recv-cancel"}, "budget_s": B_})
+    for cj_ in (0, 1, 2):
+        us.append({"name": "unix recv, a receive attempt cancelled (cycle offset %d) and retried" % cj_, "fn": unix, "params": {"mode": "recv-cancel", "cj_fixed": cj_}, "budget_s": B_})
     us.append({"name": "unix send busy", "fn": unix, "params": {"mode": "send-busy"}, "budget_s": B_})
     us.append({"name": "unix close", "fn": unix, "params": {"mode": "close"}, "budget_s": B_})
     if not quick:
